@@ -358,6 +358,7 @@ fn worker(engine: &str, prop: &str, verif_seed: u64, from: u64, to: u64, step: u
                     property: prop.to_string(),
                     clause: format!("materialise.{}", core::panic_clause(&msg)),
                     detail: msg,
+                    case: None,
                 };
                 let path = replay_path(prop, run_seed);
                 let rf = ReplayFile {
@@ -1045,7 +1046,7 @@ fn check(prop: &str, tier: &str) -> i32 {
                         violation_line = Some(line);
                     }
                     total.violation = Some((
-                        Violation { property: prop.into(), clause: rf.clause.clone(), detail: rf.detail.clone() },
+                        Violation { property: prop.into(), clause: rf.clause.clone(), detail: rf.detail.clone(), case: None },
                         path.display().to_string(),
                     ));
                 }
